@@ -455,6 +455,94 @@ Section CellText.
   Qed.
 
 
+  (* ... and with the options after a blank (sep = " ") or glued to the closing
+     parenthesis of the geometry (sep = ")") *)
+  Theorem nonvoid_card_text_sep (sep : ascii) name m rho G opts z :
+    (sep = " "%char \/ sep = ")"%char) ->
+    all_digits name = true -> is_empty name = false ->
+    all_chars nos m = true -> all_chars nonblank m = true -> is_empty m = false ->
+    fl P m = Some z -> seqb Sc z (s0 Sc) = false ->
+    all_chars nos rho = true -> all_chars (fun c => negb (is_blank c || Ascii.eqb c "(")) rho = true ->
+    is_empty rho = false ->
+    all_chars nos G = true -> starts_option opts = true ->
+    card_of_text Sc P (name ++ " " ++ m ++ " " ++ rho ++ " " ++ G ++ String sep opts) =
+    Ok (Z.of_N (parse_digits name 0%N),
+        (Explicit (" " ++ m ++ " " ++ rho)%string (" " ++ G ++ String sep "")%string, opts)).
+  Proof.
+    intros Hsep Hn Hne Hm Hmb Hme Hfl Hz Hr Hrb Hre HG0 Ho.
+    assert (nos sep = true /\ nonletter sep = true /\ (Ascii.eqb sep ")" || is_blank sep) = true) as (Hs1 & Hs2 & Hs3)
+      by (destruct Hsep as [-> | ->]; repeat split; reflexivity).
+    set (G1 := (rho ++ " " ++ G)%string).
+    assert (all_chars nos G1 = true) as HG by (unfold G1; rewrite !all_chars_app, Hr, HG0; reflexivity).
+    pose proof (all_digits_chars name Hn) as Hnd.
+    assert (all_chars nos name = true /\ all_chars nonblank name = true) as [Hnn Hnb].
+    { split; eapply all_chars_impl; try exact Hnd; intros c Hc; apply (digit_nos c Hc). }
+    assert ((name ++ " " ++ m ++ " " ++ rho ++ " " ++ G ++ String sep opts)
+            = (name ++ " " ++ m ++ " " ++ G1 ++ String sep opts))%string as Etxt
+      by (unfold G1; rewrite !append_assoc'; reflexivity).
+    rewrite Etxt.
+    set (txt := (name ++ " " ++ m ++ " " ++ G1 ++ String sep opts)%string).
+    (* the words *)
+    assert (exists x xs, split_ws txt = name :: m :: x :: xs) as (x & xs & Hw).
+    { unfold txt. change (name ++ " " ++ m ++ " " ++ G1 ++ String sep opts)%string
+        with (name ++ String " " (m ++ String " " (G1 ++ String sep opts)))%string.
+      rewrite (split_ws_word name _ Hnb Hne), (split_ws_word m _ Hmb Hme).
+      destruct (split_ws (G1 ++ String sep opts)) as [|x xs] eqn:E.
+      - exfalso. revert E. unfold split_ws. apply split_ws_aux_nonnil. right.
+        destruct opts as [|c r]; [discriminate|]. exists (G1 ++ String sep "")%string, c, r. split.
+        + rewrite append_assoc'. reflexivity.
+        + cbn in Ho. unfold nonblank, is_blank. ascii_cases c; cbv in Ho |- *; try reflexivity; discriminate.
+      - exists x, xs. reflexivity. }
+    (* not a LIKE card *)
+    assert (String.eqb (lower m) "like" = false) as Hlk.
+    { destruct m as [|c r]; [discriminate|]. cbn [all_chars] in Hm. apply andb_true_iff in Hm.
+      destruct Hm as [Hc _]. cbn [lower String.eqb].
+      replace (Ascii.eqb (lower_char c) "l") with false; [reflexivity|].
+      symmetry. clear - Hc. ascii_cases c; cbv in Hc |- *; try reflexivity; discriminate. }
+    (* options *)
+    assert (split_options txt = ((name ++ " " ++ m ++ " " ++ G1 ++ String sep "")%string, opts)) as Hso.
+    { unfold txt.
+      replace (name ++ " " ++ m ++ " " ++ G1 ++ String sep opts)%string
+        with ((name ++ " " ++ m ++ " " ++ G1) ++ String sep opts)%string
+        by (rewrite !append_assoc'; reflexivity).
+      rewrite (split_options_pre_sep sep); [|exact Hs3|rewrite !all_chars_app, Hnn, Hm, HG; reflexivity|exact Ho].
+      rewrite !append_assoc'. reflexivity. }
+    unfold card_of_text, cell_parts. fold txt. rewrite Hw, Hlk, Hso, Hfl. cbn [of_opt bind].
+    (* the body *)
+    destruct name as [|n0 name']; [discriminate|].
+    assert (is_blank n0 = false) as Hb0
+      by (cbn in Hnb; apply andb_true_iff in Hnb; destruct Hnb as [Hx _]; apply negb_true_iff in Hx; exact Hx).
+    rewrite (span_hd_fails is_blank) by exact Hb0.
+    set (name := String n0 name') in *.
+    change (name ++ " " ++ m ++ " " ++ G1 ++ String sep "")%string
+      with (name ++ String " " (m ++ String " " (G1 ++ String sep "")))%string.
+    rewrite (span_app_all is_digit name _ Hnd) by reflexivity.
+    change (String " " (m ++ String " " (G1 ++ String sep ""))) with (" " ++ (m ++ String " " (G1 ++ String sep "")))%string.
+    rewrite (span_app_all is_blank " " (m ++ String " " (G1 ++ String sep ""))); [|reflexivity|].
+    2:{ destruct m as [|c r]; [discriminate|]. cbn. cbn in Hmb. apply andb_true_iff in Hmb.
+        destruct Hmb as [Hx _]. apply negb_true_iff in Hx. exact Hx. }
+    rewrite (span_app_all (fun c => negb (is_blank c)) m (String " " (G1 ++ String sep "")) Hmb) by reflexivity.
+    unfold int_of_string. rewrite Hn. cbn [is_empty orb]. rewrite Hme, Hz. cbn [orb].
+    change (String " " (G1 ++ String sep "")) with (" " ++ (G1 ++ String sep ""))%string.
+    rewrite (span_app_all is_blank " " (G1 ++ String sep "")); [|reflexivity|].
+    2:{ unfold G1. destruct rho as [|c r]; [discriminate|]. cbn. cbn in Hrb. apply andb_true_iff in Hrb.
+        destruct Hrb as [Hx _]. apply negb_true_iff in Hx. apply orb_false_iff in Hx. exact (proj1 Hx). }
+    replace (G1 ++ String sep "")%string with (rho ++ (" " ++ G ++ String sep ""))%string
+      by (unfold G1; rewrite !append_assoc'; reflexivity).
+    rewrite (span_app_all (fun c => negb (is_blank c || Ascii.eqb c "(")) rho (" " ++ G ++ String sep "") Hrb) by reflexivity.
+    cbn [is_empty orb]. rewrite Hre.
+    assert (all_chars nonletter (" " ++ G ++ String sep "") = true) as Hnl.
+    { cbn [append all_chars]. rewrite all_chars_app. cbn [all_chars]. rewrite Hs2.
+      rewrite (all_chars_impl nos nonletter G); [reflexivity| |exact HG0].
+      intros c Hc. unfold nos, nonletter in *. apply negb_true_iff in Hc. apply orb_false_iff in Hc.
+      destruct Hc as [_ Hc]. rewrite Hc. reflexivity. }
+    unfold name at 1. cbv beta iota. cbn [bind]. cbv beta iota.
+    rewrite (lower_keeps_nonletter _ Hnl), (like_target_none _ Hnl).
+    rewrite ?append_assoc'. reflexivity.
+  Qed.
+
+
+
   (* ---- a LIKE n BUT card ---- *)
   Lemma split_last_but_pre pre : forall x a b,
     split_last_but x = Some (a, b) -> split_last_but (pre ++ x) = Some ((pre ++ a)%string, b).
